@@ -403,6 +403,11 @@ func TestC17Stateful(t *testing.T) {
 		defer w.close()
 		w.c.FixedSysFee = 30_0000_0000
 		w.multiTx = true
+		if rapid.IntRange(0, 3).Draw(rt, "oldChain") == 0 {
+			// block heights (stored with every ballot) beyond one byte
+			w.c.Skip(rapid.SampledFrom([]int{120, 250, 300}).Draw(rt, "startHeight"))
+			h.Mark("block-heights-beyond-one-byte")
+		}
 		h.Op("n=%d threshold=%d", k, w.m.threshold())
 		kinds := []string{"setConfig", "alphabetUpdate", "cheque"}
 		active := map[string][]*decision{}
@@ -419,6 +424,7 @@ func TestC17Stateful(t *testing.T) {
 			}
 			ntx := rapid.SampledFrom([]int{1, 1, 2, 3}).Draw(rt, "txInBlock")
 			var txs []voteTx
+			auInBlock := false
 			for j := 0; j < ntx; j++ {
 				kind := rapid.SampledFrom([]string{"setConfig", "setConfig", "alphabetUpdate", "cheque", "cheque", "candidateRemove", "candidateAdd"}).Draw(rt, "kind")
 				if kind == "candidateAdd" {
@@ -439,7 +445,25 @@ func TestC17Stateful(t *testing.T) {
 				if kind == "candidateRemove" {
 					d = w.candidateDecision(rapid.IntRange(0, 1).Draw(rt, "candidate"))
 				} else {
-					d = active[kind][rapid.IntRange(0, 1).Draw(rt, "whichId")]
+					which := rapid.IntRange(0, 1).Draw(rt, "whichId")
+					d = active[kind][which]
+					if kind == "alphabetUpdate" {
+						// A proposal that would lower the threshold under other pending ballots makes their next
+						// vote set-valued (the statement fixes n). Proposals are made relative to the list at
+						// their creation, so one that was overtaken by a growth of the list is withdrawn here;
+						// and only one alphabetUpdate vote goes into a block, so that the list this check sees
+						// is the list the vote will see.
+						if auInBlock {
+							continue
+						}
+						if len(d.newAlphabet)*2/3 < len(w.m.alphabet)*2/3 {
+							delete(w.m.ballots, string(d.id))
+							d = w.newDecision(kind)
+							active[kind][which] = d
+							col.Count("excluded:overtaken-alphabet-proposal-withdrawn", 1)
+						}
+						auInBlock = true
+					}
 				}
 				// actor
 				var actors []neotest.SingleSigner
